@@ -2,6 +2,7 @@ package vc
 
 // propertyNotes: a note starting with "partial:" forces evidence level "other".
 var propertyNotes = map[string]string{
+	"C07": "partial: the assembly steps (sources and their order, inheritance, comparator, stable sort call, last-of-run dedupe, groups) are proved; that the printed list is the sorted permutation with the last occurrence surviving relies on the assumed behaviour of slices.SortStableFunc and is not decided by this check.",
 	"C20": "partial: totality / in-bounds of the formatter is proved for all int64 durations; the parser's agreement with time.ParseDuration and the format/parse round trip are not decided by this check.",
 }
 
